@@ -26,9 +26,7 @@ def allFieldsAttrRev (X : Option String) : List Level → Option (List FieldDef)
   | [] => none
   | l :: parents =>
     let own := l.fields.filter (·.omitted == X)
-    let parentCallers := match parents with
-      | p :: _ => p.ownCallers
-      | [] => []
+    let parentCallers := dedup (parents.flatMap (·.ownCallers))     -- every ancestor, not only the direct parent
     let assigned := X.isNone || callerIn X l.ownCallers || callerIn X parentCallers
     if assigned then
       let callerInParent := !parents.isEmpty && (X.isNone || callerIn X parentCallers)
@@ -63,9 +61,7 @@ def tagmapAttrRev (X : Option String) : List ULevel → Option (List TagDef)
   | [] => none
   | l :: parents =>
     let own := l.tags.filter (·.omitted == X)
-    let parentCallers := match parents with
-      | p :: _ => p.ownCallers
-      | [] => []
+    let parentCallers := dedup (parents.flatMap (·.ownCallers))     -- every ancestor, not only the direct parent
     let assigned := X.isNone || callerIn X l.ownCallers || callerIn X parentCallers
     if assigned then
       let callerInParent := !parents.isEmpty && (X.isNone || callerIn X parentCallers)
@@ -80,9 +76,7 @@ def UnionDef.tagmapAttr (u : UnionDef) (X : Option String) : Option (List TagDef
 def permissionedTagmapsRev : List ULevel → List String
   | [] => []
   | l :: parents =>
-    let parentCallers := match parents with
-      | p :: _ => p.ownCallers
-      | [] => []
+    let parentCallers := dedup (parents.flatMap (·.ownCallers))     -- every ancestor, not only the direct parent
     let all := dedup (l.ownCallers ++ parentCallers)
     if all.isEmpty then permissionedTagmapsRev parents else all
 
